@@ -1,4 +1,5 @@
 import Evl.Lemmas.Gated
+import Evl.Lemmas.GatedSpec
 /-!
 # C11 — gated.Filter neither loses, duplicates nor reorders gated events
 
@@ -7,12 +8,11 @@ groups, events, clock values and injected failures).
 
 Proved here: conservation (nothing lost, nothing duplicated: every accepted event is handed to
 composition or dropped at most once, or is still gated), pass-through, rejection of events without
-id, and that a composite reported Gateable is never sent through the Broker.  The clause "together
-with exactly the other events of the same id, in arrival order" is covered by the model's
-construction (`addEvent` appends to the id's group) and is checked against the implementation on
-every run by the Go-side oracle `checkEmits`; a Lean refinement to a per-id queue specification is
-not yet proved (named `grouping_order` in DESIGN.md) — the property is labelled partial for that
-clause.
+id, that a composite reported Gateable is never sent through the Broker, and — `grouping_step`,
+`grouping` — that the gate refines the per-id queue specification of `Evl.Lemmas.GatedSpec`: along
+every history from the empty gate, each group handed to composition (or dropped) is exactly the list
+of events of one id received since that id's group was opened, in arrival order and non-empty, and
+the gate's content is at every moment the specification's pending map.
 -/
 namespace Evl.C11
 open Evl.Gated
@@ -210,6 +210,120 @@ theorem flush_trigger (c : Cfg) (gs : List Group) (uid id : Nat) (now : Int) (f 
       subst h
       exact ⟨by simp, h2⟩
 
+
+/-! ### refinement to the per-id queue specification -/
+
+/-- The specification actions an operation stands for, read off its observable output: first the
+groups opened by the expiry sweep / FlushAll / Close, then the arrival of the event if it was
+accepted, then — for a flush event — the release of the event's own group. -/
+def acts (op : Op) (o : Out) : List Act :=
+  match op with
+  | .ev uid id _ _ _ =>
+    if accepted op o = [] then o.emits.map relOf
+    else match o.ret with
+      | .gated => o.emits.map relOf ++ [.arrive id uid]
+      | _ => o.emits.dropLast.map relOf ++ [.arrive id uid] ++ o.emits.getLast?.toList.map relOf
+  | _ => o.emits.map relOf
+
+/-- One operation refines the specification: its actions are enabled in the specification state
+`pend gs` (so every release carries exactly the pending events of its id, in arrival order) and lead
+to the specification state of the gate after the operation. -/
+theorem grouping_step (c : Cfg) (gs : List Group) (op : Op) (hw : Wf gs) :
+    specRun (pend gs) (acts op (step c gs op).2) = some (pend (step c gs op).1) ∧ Wf (step c gs op).1 := by
+  have flushCase : ∀ f, specRun (pend gs) ((flushAllStep c gs f).2.emits.map relOf) = some (pend (flushAllStep c gs f).1)
+      ∧ Wf (flushAllStep c gs f).1 := by
+    intro f
+    unfold flushAllStep
+    by_cases hem : gs.isEmpty = true
+    · simp only [hem, if_true, List.map_nil, specRun]; exact ⟨trivial, hw⟩
+    simp only [hem, if_false, Bool.false_eq_true]
+    by_cases hb : (!c.broker) = true
+    · simp only [hb, if_true, List.map_map]
+      exact ⟨dropAll_refines gs hw, wf_nil⟩
+    · simp only [hb, if_false, Bool.false_eq_true]
+      exact openAll_refines c f gs hw
+  cases op with
+  | ng uid => simp only [acts, step, List.map_nil, specRun]; exact ⟨trivial, hw⟩
+  | flushAll f => exact flushCase f
+  | close f => exact flushCase f
+  | ev uid id flush now f =>
+    unfold step
+    by_cases hid : (id == 0) = true
+    · simp only [hid, if_true, acts, accepted, List.map_nil, specRun]; exact ⟨trivial, hw⟩
+    simp only [hid, if_false, Bool.false_eq_true]
+    obtain ⟨hx1, hx2⟩ := openExpired_refines c f now gs [] hw
+    simp only [List.nil_append] at hx1 hx2
+    cases hok : (openExpired c f now gs).2.2 with
+    | false =>
+      simp only [Bool.not_false, if_true]
+      have hacc : accepted (.ev uid id flush now f) ⟨lastErr (openExpired c f now gs).2.1, (openExpired c f now gs).2.1⟩ = [] := by
+        unfold accepted
+        rcases lastErr_cases (openExpired c f now gs).2.1 with h2 | h2 | h2 | ⟨h2, h3⟩
+        · simp [h2]
+        · simp [h2]
+        · simp [h2]
+        · simp [h2, h3]
+      simp only [acts, hacc, if_true]
+      exact ⟨hx1, hx2⟩
+    | true =>
+      simp only [Bool.not_true, Bool.false_eq_true, if_false]
+      obtain ⟨ha1, ha2⟩ := addEvent_refines (openExpired c f now gs).1 id uid (now + c.expiration) hx2
+      have harr : specStep (pend (openExpired c f now gs).1) (.arrive id uid) =
+          some (pend (addEvent (openExpired c f now gs).1 id uid (now + c.expiration))) := by
+        simp only [specStep, ha1]
+      cases flush with
+      | false =>
+        simp only [Bool.false_eq_true, if_false, acts, accepted, List.cons_ne_nil]
+        rw [specRun_append, hx1]
+        simp only [Option.bind_some, specRun, harr]
+        exact ⟨trivial, ha2⟩
+      | true =>
+        simp only [if_true]
+        obtain ⟨g, r, h1, _, h3⟩ := take_add (openExpired c f now gs).1 id uid (now + c.expiration)
+        obtain ⟨ht1, ht2⟩ := takeGroup_refines ha2 h1
+        simp only [h1]
+        by_cases hcf : (f.cf != 0 && id == f.cf) = true
+        · simp only [hcf, if_true, acts, accepted, List.getLast?_append, List.getLast?_singleton, Option.some_or,
+            Option.map_some, List.cons_ne_nil, if_false, List.dropLast_concat, Option.toList_some,
+            List.map_cons, List.map_nil, relOf]
+          rw [List.append_assoc, specRun_append, hx1]
+          simp only [Option.bind_some, List.cons_append, List.nil_append, specRun, harr, ht1]
+          exact ⟨trivial, ht2⟩
+        · simp only [hcf, if_false, Bool.false_eq_true, acts, accepted, List.getLast?_append, List.getLast?_singleton,
+            Option.some_or, List.cons_ne_nil, List.dropLast_concat, Option.toList_some,
+            List.map_cons, List.map_nil, relOf]
+          rw [List.append_assoc, specRun_append, hx1]
+          simp only [Option.bind_some, List.cons_append, List.nil_append, specRun, harr, ht1]
+          exact ⟨trivial, ht2⟩
+
+/-- the specification actions of a whole history -/
+def allActs (c : Cfg) : List Group → List Op → List Act
+  | _, [] => []
+  | gs, op :: rest => acts op (step c gs op).2 ++ allActs c (step c gs op).1 rest
+
+/-- **Grouping and arrival order, every history.**  From the empty gate, whatever the operations,
+clock values and injected failures, the specification can run the history's actions: every group
+that left the gate was exactly the events of its id received since the id's group was opened, in
+arrival order, and what is still gated is what the specification holds pending. -/
+theorem grouping (c : Cfg) (ops : List Op) :
+    specRun (pend []) (allActs c [] ops) = some (pend (run c [] ops).1) := by
+  suffices h : ∀ gs, Wf gs → specRun (pend gs) (allActs c gs ops) = some (pend (run c gs ops).1) from h [] wf_nil
+  induction ops with
+  | nil => intro gs _; rfl
+  | cons op rest ih =>
+    intro gs hw
+    obtain ⟨h1, h2⟩ := grouping_step c gs op hw
+    simp only [allActs, run]
+    rw [specRun_append, h1]
+    exact ih _ h2
+
+/-- the specification does reject wrong groupings (the refinement is not vacuous) -/
+example : specRun (pend []) [.arrive 1 10, .arrive 2 11, .arrive 1 12, .release 1 [10, 12]] ≠ none := by decide
+example : specRun (pend []) [.arrive 1 10, .arrive 2 11, .arrive 1 12, .release 1 [12, 10]] = none := by decide
+example : specRun (pend []) [.arrive 1 10, .arrive 2 11, .arrive 1 12, .release 1 [10]] = none := by decide
+example : specRun (pend []) [.arrive 1 10, .arrive 2 11, .release 1 [10, 11]] = none := by decide
+example : specRun (pend []) [.arrive 1 10, .release 1 [10], .release 1 [10]] = none := by decide
+
 /-- Non-vacuity. -/
 def demoOps : List Op :=
   [ .ev 1 1 false 0 {}, .ev 2 2 false 1 {}, .ng 3, .ev 4 1 false 2 {}, .ev 5 2 true 3 {}, .ev 6 3 false 30 {},
@@ -217,5 +331,7 @@ def demoOps : List Op :=
 example : (runLog ⟨true, 10⟩ [] demoOps).2.1 = [1, 2, 4, 5, 6, 7] := by decide
 example : (runLog ⟨true, 10⟩ [] demoOps).2.2 = [2, 5, 1, 4, 6, 7] := by decide
 example : (runLog ⟨true, 10⟩ [] demoOps).1 = [] := by decide
+
+example : (allActs ⟨true, 10⟩ [] demoOps).length = 10 := by decide
 
 end Evl.C11
